@@ -173,11 +173,11 @@ def poller_shape():
 def discovery_job(job):
     """One whole-gateway discovery run (in a worker process)."""
     logging.disable(logging.CRITICAL)
-    cfg, kind, arg, hours = job
+    cfg, kind, arg, hours, *rest = job
     lose = LOSSES[kind][0](arg)
     probes = sorted({round(hours * f, 3) for f in (0.005, 0.1, 0.45, 0.52)})
     try:
-        obs = disc.run_discovery(cfg, lose, hours, probe_hours=probes)
+        obs = disc.run_discovery(cfg, lose, hours, probe_hours=probes, first_sync=rest[0] if rest else None)
     except Exception as err:  # noqa: BLE001
         import traceback  # noqa: PLC0415
         return {"error": f"{type(err).__name__}: {err}", "tb": traceback.format_exc()[-600:]}
@@ -308,12 +308,17 @@ def run(ctx: Ctx) -> None:
             jobs.append((cfg, "one-reply-lost", list(rq), LOSSES["one-reply-lost"][1]))
             if rq[0] == "000C":
                 jobs.append((cfg, "one-reply-lost-twice", list(rq), LOSSES["one-reply-lost-twice"][1]))
+    # "no prior schema": not even the controller's id is given -- the gateway learns of it from its sync announcement, first heard while
+    # Gateway.start() is still waiting for the transport (20 ms after the port opened), just after it returned, or seconds later
+    for fs in (0.02, 0.06, 2.0, 140.0):
+        cfg = disc.gen_cfg(rng, nzones=rng.choice([2, 3, 5]), max_act=2, ctl_sensor_once=True)
+        jobs.append((cfg, "none" if fs != 0.06 else "every-mth-reply", 0 if fs != 0.06 else 3, 26 if fs != 0.06 else 52, fs))
     with mp.get_context("fork").Pool(min(common.NPROC, 12)) as pool:
         results = pool.map(discovery_job, jobs, chunksize=1)
     req_cases = []
-    for (cfg, kind, arg, hours), r in zip(jobs, results):
-        ctx.case(("discovery", json.dumps(cfg, sort_keys=True), kind, arg), bool(cfg["zones"]), f"discovery:{kind}")
-        case = {"cfg": cfg, "loss": kind, "loss_arg": arg, "virtual_hours": hours}
+    for (cfg, kind, arg, hours, *fsync), r in zip(jobs, results):
+        ctx.case(("discovery", json.dumps(cfg, sort_keys=True), kind, arg, tuple(fsync)), bool(cfg["zones"]), f"discovery:{kind}" + (":controller-learnt-from-traffic" if fsync else ""))
+        case = {"cfg": cfg, "loss": kind, "loss_arg": arg, "virtual_hours": hours, "controller_first_heard_s_after_port_opened": fsync[0] if fsync else None}
         if "error" in r:
             ctx.violation(f"discovery-run-raises:{r['error'].split(':')[0]}", r["error"] + " " + r.get("tb", ""), case, "configuration")
             continue
@@ -331,10 +336,10 @@ def run(ctx: Ctx) -> None:
             prev = s
         final = r["snaps"][-1][1]
         if final != exp:
-            why = "controller-is-sensor-of-several-zones" if ctl_twice else f"loss={kind}"
+            why = "controller-is-sensor-of-several-zones" if ctl_twice else f"loss={kind}" + (":controller-learnt-from-traffic" if fsync else "")
             ctx.violation(f"configuration-not-reconstructed:{why}", f"after {hours} virtual hours the schema {json.dumps(final)[:500]} differs from the configuration {json.dumps(exp)[:500]}",
                           {**case, "schema": final, "expected": exp, "loop_errors": r["errs"]}, "fault-sequence")
-        elif kind == "none":
+        elif kind == "none" and not fsync:
             req_cases.append((cfg, r["topology_rqs"]))
     ctx.extra["frames_written_by_the_gateway"] = sum(r.get("n_writes", 0) for r in results)
     # the requests written vs the model's polling tables (loss-free runs that ended complete)
